@@ -112,6 +112,9 @@ func (g *gm) droppable(call *ast.CallExpr) bool {
 	if src == "crashPoint" {
 		return true
 	}
+	if src == "cancel" && len(call.Args) == 0 { // `defer cancel()` of a context.WithTimeout
+		return true
+	}
 	for _, frag := range []string{".log.", ".Logger.", ".logger.", ".mu.Lock", ".mu.Unlock", ".mu.RLock", ".mu.RUnlock", ".Mutex.", ".RWMutex."} {
 		if strings.Contains(src, frag) {
 			return true
@@ -642,7 +645,12 @@ func genGoMini(module string, order []string, units map[string][]string, constFi
 					}
 				}
 			}
-			body := g.block(fd.Body.List)
+			// parameters and the function's outermost block are ONE scope in Go
+			var bodyStmts []string
+			for _, st := range fd.Body.List {
+				bodyStmts = append(bodyStmts, g.stmt(st)...)
+			}
+			body := "[" + strings.Join(bodyStmts, ",\n      ") + "]"
 			fmt.Fprintf(&b, "/-- `%s` (%s) -/\ndef %s : Func :=\n  { recv := %s, params := [%s],\n    body := %s }\n\n", fnName, rel, def, recv, strings.Join(params, ", "), body)
 			names = append(names, "("+strconv.Quote(short)+", "+def+")")
 			for _, u := range g.unsupported {
@@ -699,6 +707,10 @@ func genGoMiniAll() []*leanFile {
 			sv + "failover.go":  {"failoverStatus.report", "failoverStatus.cancel", "partitionFailover.Quorum", "partitionFailover.IsWitness", "partitionFailover.Timeout"},
 			sv + "partition.go": {"partition.inISR", "partition.ISRSize", "partition.GetLeader"}},
 		[]string{sv + "failover.go", sv + "partition.go"})})
+	out = append(out, &leanFile{name: "GoCursors", raw: genGoMini("GoCursors",
+		[]string{sv + "cursors.go"},
+		map[string][]string{sv + "cursors.go": {"cursorManager.SetCursor"}},
+		[]string{sv + "cursors.go"})})
 	out = append(out, &leanFile{name: "GoSubscribe", raw: genGoMini("GoSubscribe",
 		[]string{sv + "partition.go"},
 		map[string][]string{sv + "partition.go": {"partition.getStopOffset"}},
